@@ -74,7 +74,8 @@ PLAN = {
                 mc=[]),
     "C15": dict(level="model_checking", design="6 C15",
                 traces=[dict(job="seq", spec="TraceSeq"), dict(job="que", spec="TraceQue"), dict(job="heap", spec="TraceHeap"),
-                        dict(job="set", spec="TraceSet"), dict(job="map", spec="TraceMap")],
+                        dict(job="set", spec="TraceSet"), dict(job="map", spec="TraceMap"),
+                        dict(job="clr", spec="TraceClear", together=True)],
                 mc=[]),
     "C16": dict(level="model_checking", design="6 C16",
                 traces=[dict(job="alias", spec="TraceAlias", together=True)],
